@@ -16,8 +16,10 @@ CONSTANTS
   FinalReset = TRUE
   CompRebases = FALSE
   MaxUser = 4
+  CompSkips = FALSE
 INVARIANT TypeOK
 INVARIANT RowsTrue
+INVARIANT RowsCompensated
 INVARIANT NominalReproduced
 INVARIANT Reproducible
 INVARIANT EndStateNominal
